@@ -623,4 +623,76 @@ theorem subst_closed (env : Env) (hE : EnvClosed env []) (r : Term) (x : String)
       simp [hqx] at this
     · exact absurd hx (hE q hq x hqx).1
 
+/-! ### The positional reading -/
+
+theorem okUse_cases {pre D : List String} {x : String} (h : okUse pre D x = true) :
+    x ∈ D ∨ x ∈ pre ∨ isPluginConst x = true := by
+  simp only [okUse, Bool.or_eq_true, List.contains_iff_mem] at h
+  rcases h with (h | h) | h
+  · exact Or.inl h
+  · exact Or.inr (Or.inl h)
+  · exact Or.inr (Or.inr h)
+
+theorem wfFrom_positional (pre : List String) : ∀ (items : List Item) (D : List String), WfFrom pre D items →
+    ∃ ds t, items = ds ++ [Item.ret t] ∧
+      (∀ d ∈ ds, ∃ ty n rhs, d = Item.decl ty n rhs) ∧
+      (declNames ds).Nodup ∧
+      (∀ n ∈ declNames ds, n ∉ D ∧ n ∉ pre) ∧
+      (∀ i ty n rhs, ds[i]? = some (Item.decl ty n rhs) → ∀ u ∈ rhs.uses,
+          u.1 ∈ declNames (ds.take i) ∨ u.1 ∈ D ∨ u.1 ∈ pre ∨ isPluginConst u.1 = true) ∧
+      (∀ u ∈ t.uses, u.1 ∈ declNames ds ∨ u.1 ∈ D ∨ u.1 ∈ pre ∨ isPluginConst u.1 = true)
+  | [], _, h => by simp [WfFrom] at h
+  | .comment _ :: _, _, h => by simp [WfFrom] at h
+  | .ret t :: rest, D, h => by
+      simp only [WfFrom] at h
+      refine ⟨[], t, by rw [h.1]; rfl, by simp, by simp [declNames], by simp [declNames], by simp, ?_⟩
+      intro u hu
+      exact Or.inr (okUse_cases (h.2 u hu))
+  | .decl ty n rhs :: rest, D, h => by
+      simp only [WfFrom] at h
+      obtain ⟨hD, hpre, huse, hrest⟩ := h
+      obtain ⟨ds, t, hit, hall, hnd, hfr, hpos, hret⟩ := wfFrom_positional pre rest (n :: D) hrest
+      refine ⟨Item.decl ty n rhs :: ds, t, by rw [hit]; rfl, ?_, ?_, ?_, ?_, ?_⟩
+      · intro d hd
+        rcases List.mem_cons.1 hd with hd | hd
+        · exact ⟨ty, n, rhs, hd⟩
+        · exact hall d hd
+      · simp only [declNames, List.nodup_cons]
+        exact ⟨fun hn => (hfr n hn).1 List.mem_cons_self, hnd⟩
+      · intro m hm
+        simp only [declNames, List.mem_cons] at hm
+        rcases hm with hm | hm
+        · subst hm; exact ⟨by simpa using hD, by simpa using hpre⟩
+        · exact ⟨fun h => (hfr m hm).1 (List.mem_cons_of_mem _ h), (hfr m hm).2⟩
+      · intro i ty' n' rhs' hi u hu
+        cases i with
+        | zero =>
+          simp only [List.getElem?_cons_zero, Option.some.injEq, Item.decl.injEq] at hi
+          obtain ⟨_, _, hr⟩ := hi
+          subst hr
+          exact Or.inr (okUse_cases (huse u hu))
+        | succ i =>
+          simp only [List.getElem?_cons_succ] at hi
+          simp only [List.take_succ_cons, declNames, List.mem_cons]
+          rcases hpos i ty' n' rhs' hi u hu with h | h | h
+          · exact Or.inl (Or.inr h)
+          · rcases List.mem_cons.1 h with h | h
+            · exact Or.inl (Or.inl h)
+            · exact Or.inr (Or.inl h)
+          · exact Or.inr (Or.inr h)
+      · intro u hu
+        simp only [declNames, List.mem_cons]
+        rcases hret u hu with h | h | h
+        · exact Or.inl (Or.inr h)
+        · rcases List.mem_cons.1 h with h | h
+          · exact Or.inl (Or.inl h)
+          · exact Or.inr (Or.inl h)
+        · exact Or.inr (Or.inr h)
+
+theorem returned_noComments : ∀ items : List Item, returned (noComments items) = returned items
+  | [] => rfl
+  | .comment s :: rest => by rw [noComments_comment, returned_noComments rest]; rfl
+  | .ret t :: rest => rfl
+  | .decl ty n rhs :: rest => by rw [noComments_decl]; simp only [returned, returned_noComments rest]
+
 end Rzil
